@@ -147,6 +147,60 @@ func highcmd(w []string) bool {
 		guard("end err ", func() {
 			finish(hd.PKSelect(h.Unhex(w[2]), hkey(w[3]), rowcb, h.UnhexList(w[4])...))
 		})
+	case w[0] == "scanmut" && len(w) == 3:
+		// scan column w[2] of every row of table w[1] into []byte and string, scribble over the
+		// bytes, read everything again through the same handle, close the handle, compare
+		guard("scanmut PANIC ", func() {
+			read := func() ([][]byte, []string, error) {
+				var bs [][]byte
+				var ss []string
+				err := hd.Select(w[1], func(r sqlittle.Row) {
+					var b []byte
+					var s string
+					if err := r.Scan(&b); err != nil {
+						panic(err)
+					}
+					r.Scan(&s)
+					bs = append(bs, b)
+					ss = append(ss, s)
+				}, w[2])
+				return bs, ss, err
+			}
+			first, firstS, err := read()
+			if err != nil {
+				fmt.Fprintf(out, "scanmut err %v\n", err)
+				return
+			}
+			keep := make([][]byte, len(first))
+			for i, b := range first {
+				keep[i] = append([]byte(nil), b...)
+			}
+			for _, b := range first {
+				for i := range b {
+					b[i] = 'X'
+				}
+			}
+			second, _, err := read()
+			if err != nil {
+				fmt.Fprintf(out, "scanmut err %v\n", err)
+				return
+			}
+			for i := range second {
+				if string(second[i]) != string(keep[i]) {
+					fmt.Fprintf(out, "scanmut row %d: a later read returns the bytes the caller wrote into the earlier scanned slice (len %d)\n", i, len(keep[i]))
+					return
+				}
+			}
+			db.Close()
+			for i := range second {
+				if string(second[i]) != string(keep[i]) || firstS[i] != string(keep[i]) {
+					fmt.Fprintf(out, "scanmut row %d: a scanned value changed after Close\n", i)
+					return
+				}
+			}
+			db = nil
+			fmt.Fprintln(out, "scanmut ok")
+		})
 	case w[0] == "columns" && len(w) == 2:
 		guard("end err ", func() {
 			cs, err := hd.Columns(w[1])
@@ -205,6 +259,107 @@ func pure(w []string) bool {
 			} else {
 				fmt.Fprintf(out, "ok %s\n", h.ShowRecord(r))
 			}
+		})
+	case w[0] == "rowscan" && len(w) == 3:
+		// rowscan DEST,DEST,... VALUE,VALUE,...: Row(values).Scan(dests...); prints the scanned values (or err)
+		// and, per column, what strconv / time answer for it (the model takes those as given)
+		guard("PANIC ", func() {
+			var row sqlittle.Row
+			if w[2] != "-" {
+				for _, p := range strings.Split(w[2], ",") {
+					row = append(row, h.ReadValue(p))
+				}
+			}
+			before := h.ShowRecord([]interface{}(row))
+			var args []interface{}
+			kinds := strings.Split(w[1], ",")
+			for _, k := range kinds {
+				switch k {
+				case "s":
+					args = append(args, new(string))
+				case "b":
+					args = append(args, new([]byte))
+				case "i64":
+					args = append(args, new(int64))
+				case "i32":
+					args = append(args, new(int32))
+				case "i":
+					args = append(args, new(int))
+				case "bool":
+					args = append(args, new(bool))
+				case "f":
+					args = append(args, new(float64))
+				case "t":
+					args = append(args, new(time.Time))
+				case "nil":
+					args = append(args, nil)
+				default:
+					args = append(args, new(uint8))
+				}
+			}
+			err := row.Scan(args...)
+			var res []string
+			for i, a := range args {
+				switch v := a.(type) {
+				case *string:
+					res = append(res, "s"+hex.EncodeToString([]byte(*v)))
+				case *[]byte:
+					if *v == nil {
+						res = append(res, "bnil")
+					} else {
+						res = append(res, "b"+hex.EncodeToString(*v))
+					}
+				case *int64:
+					res = append(res, fmt.Sprintf("i%d", *v))
+				case *int32:
+					res = append(res, fmt.Sprintf("i%d", *v))
+				case *int:
+					res = append(res, fmt.Sprintf("i%d", *v))
+				case *bool:
+					res = append(res, fmt.Sprintf("%v", *v))
+				case *float64:
+					res = append(res, fmt.Sprintf("f%016x", math.Float64bits(*v)))
+				case *time.Time:
+					res = append(res, fmt.Sprintf("T%d:%d", v.Unix(), v.Nanosecond())) // the zero time is T-62135596800:0
+				case nil:
+					res = append(res, "skip")
+				default:
+					res = append(res, "unsupported")
+				}
+				_ = i
+			}
+			var orc []string
+			for _, v := range row {
+				ff, pf, pt := "-", "-", "-"
+				switch t := v.(type) {
+				case float64:
+					ff = hex.EncodeToString([]byte(strconv.FormatFloat(t, 'g', -1, 64)))
+				case string, []byte:
+					var str string
+					if b, ok := t.([]byte); ok {
+						str = string(b)
+					} else {
+						str = t.(string)
+					}
+					if f, err := strconv.ParseFloat(str, 64); err == nil {
+						pf = fmt.Sprintf("%016x", math.Float64bits(f))
+					}
+					if _, ok := t.(string); ok {
+						if tm, err := time.Parse("2006-01-02 15:04:05", str); err == nil {
+							pt = fmt.Sprintf("%d:%d", tm.Unix(), tm.Nanosecond())
+						} else if tm, err := time.Parse("2006-01-02 15:04:05.000", str); err == nil {
+							pt = fmt.Sprintf("%d:%d", tm.Unix(), tm.Nanosecond())
+						}
+					}
+				}
+				orc = append(orc, ff+"/"+pf+"/"+pt)
+			}
+			status := "ok"
+			if err != nil {
+				status = "err"
+			}
+			unchanged := before == h.ShowRecord([]interface{}(row))
+			fmt.Fprintf(out, "%s %s rowunchanged=%v oracle=%s\n", status, strings.Join(res, ","), unchanged, strings.Join(orc, ";"))
 		})
 	case w[0] == "tokens" && len(w) == 2:
 		b, _ := hex.DecodeString(w[1])
